@@ -284,7 +284,7 @@ func connScenario(cr *childRun, sid int) {
 func connFamily() *family {
 	return &family{
 		name:     "conn",
-		children: 2,
+		children: 1,
 		total:    func() int { return lib.Pick(len(connKinds), len(connKinds)*8) },
 		run:      connScenario,
 		watchdog: func(n int) time.Duration { return time.Duration(120+n*40) * time.Second },
